@@ -113,12 +113,12 @@ REGISTRY = {
         "assumptions": [EXTERNAL, "reverse ntHash seed of a base = forward seed of its complement (compared on every generated window)"],
     },
     "C02": {
-        "level": "proof", "modules": ["SkaModel.Props.C02"], "gen": ["C02"], "cli": [cli.c02_cli],
+        "level": "proof", "modules": ["SkaModel.Props.C02", "SkaModel.Props.EndToEnd"], "gen": ["C02"], "cli": [cli.c02_cli],
         "rule": "record sets of C01 x transformations (record permutation, random case mask, per-record reverse complement when strands are merged, all together); in-process metamorphic comparison + CLI runs on re-wrapped/gzip-compressed/permuted files; non-trivial = distinct case lines yielding at least one k-mer",
         "trusted_base": COMMON_TRUST, "assumptions": [EXTERNAL, "gzip decompression and FASTA line joining (needletail) are exercised through the CLI only"],
     },
     "C03": {
-        "level": "proof", "modules": ["SkaModel.Props.C03"], "gen": ["C03"], "cli": [cli.c03_cli],
+        "level": "proof", "modules": ["SkaModel.Props.C03", "SkaModel.Props.EndToEnd"], "gen": ["C03"], "cli": [cli.c03_cli],
         "rule": "in-process: sample families (1-3 contigs, isolated and non-isolated substitutions, contigs permuted / reverse-complemented per sample) through build_and_merge + align vs model and vs the joint-build table specification; CLI: repeat-free ancestors (predicate checked, resampled otherwise), isolated SNP sites at the exact boundary distances (h+1 apart, h from the ends), 2-10 samples, expected = exactly the planted columns; non-trivial = families with at least one variable site",
         "trusted_base": COMMON_TRUST, "assumptions": [EXTERNAL, "RepeatFree is the executable predicate: every canonical arm key occurs at one ancestor coordinate only over all samples and is not its own reverse complement"],
     },
@@ -128,12 +128,12 @@ REGISTRY = {
         "trusted_base": COMMON_TRUST, "assumptions": [EXTERNAL],
     },
     "C05": {
-        "level": "proof", "modules": ["SkaModel.Props.C05"], "gen": ["C05"],
+        "level": "proof", "modules": ["SkaModel.Props.C05", "SkaModel.Props.C05Map"], "gen": ["C05"],
         "rule": "inputs of C04; VCF text parsed (CHROM, POS, REF, ALT, GT) and genotypes decoded through REF/ALT, compared with the alignment-derived specification; non-trivial = distinct case lines with at least one record",
         "trusted_base": COMMON_TRUST, "assumptions": [EXTERNAL, "noodles-vcf text rendering is trusted"],
     },
     "C11": {
-        "level": "proof", "modules": ["SkaModel.Props.C11"], "gen": [], "cli": [cli.c11_cli],
+        "level": "proof", "modules": ["SkaModel.Props.C11", "SkaModel.Props.C11Offsets"], "gen": [], "cli": [cli.c11_cli],
         "rule": "CLI matrix subcommand x input kind x threads x repetitions x sample counts on both sides of the 10-samples-per-thread rule (each process draws fresh hash seeds); non-trivial = distinct (sample count) families compared",
         "trusted_base": COMMON_TRUST, "assumptions": [EXTERNAL, "actual rayon scheduling and DashMap interleavings are sampled by the matrix, not proved"],
     },
@@ -143,12 +143,12 @@ REGISTRY = {
         "trusted_base": COMMON_TRUST, "assumptions": [EXTERNAL, "the float expression ceil(n*min_freq) is glue: thresholds are passed as min_freq=(t-1/2)/n"],
     },
     "C07": {
-        "level": "proof", "modules": ["SkaModel.Props.C07"], "gen": ["C07"], "cli": [cli.make_hist_cli("C07", 12, 150)],
+        "level": "proof", "modules": ["SkaModel.Props.C07", "SkaModel.Props.EndToEnd"], "gen": ["C07"], "cli": [cli.make_hist_cli("C07", 12, 150)],
         "rule": "start table merged with 1-3 further tables (shared and private k-mers, 1-3 samples each, nested via reload), incl. refused merges (other k / strand), k across the 64/128-bit boundary; non-trivial = distinct case lines whose merge succeeded",
         "trusted_base": COMMON_TRUST, "assumptions": [EXTERNAL],
     },
     "C08": {
-        "level": "proof", "modules": ["SkaModel.Props.C08"], "gen": ["C08"], "cli": [cli.make_hist_cli("C08", 16, 200)],
+        "level": "proof", "modules": ["SkaModel.Props.C08", "SkaModel.Props.EndToEnd"], "gen": ["C08"], "cli": [cli.make_hist_cli("C08", 16, 200)],
         "rule": "tables of 2-8 samples; delete sets: first, last, adjacent block, alternating, random subset, shuffled order, all (refused), unknown (refused), partly unknown (refused), none (refused); non-trivial = accepted deletions",
         "trusted_base": COMMON_TRUST, "assumptions": [EXTERNAL],
     },
@@ -175,7 +175,7 @@ REGISTRY = {
         "trusted_base": COMMON_TRUST, "assumptions": [EXTERNAL, "flips inside compressed payloads / chunk type / length bytes are decided per file by enumeration, not by theorem (2^-32 CRC events)"],
     },
     "C12": {
-        "level": "proof", "modules": ["SkaModel.Props.C12"], "gen": ["C12"],
+        "level": "proof", "modules": ["SkaModel.Props.C12", "SkaModel.Props.C12Spec"], "gen": ["C12"],
         "rule": "paired FASTQ read sets drawn from a small genome on both strands with errors and N, lengths k..3k, qualities at min_qual-1/min_qual/min_qual+1, min-count 1-6 (counts hit c-1, c, c+1 across files and strands), min-qual 0-40, three quality rules, k in {5..63}, both strand modes, self-reverse-complement arms; non-trivial = distinct case lines yielding at least one k-mer",
         "trusted_base": COMMON_TRUST, "assumptions": [EXTERNAL, "exactness is stated under the no-collision hypothesis (ntHash injective on the observed k-mers, no Bloom false positive among them); the collision rate is measured, not proved"],
     },
@@ -191,7 +191,7 @@ REGISTRY = {
         "trusted_base": COMMON_TRUST, "assumptions": [EXTERNAL],
     },
     "C13": {
-        "level": "proof", "modules": ["SkaModel.Props.C13"], "gen": ["C13"], "cli": [cli.make_hist_cli("C13", 12, 150)],
+        "level": "proof", "modules": ["SkaModel.Props.C13", "SkaModel.Props.EndToEnd"], "gen": ["C13"], "cli": [cli.make_hist_cli("C13", 12, 150)],
         "rule": "tables x weed record sets that hit a random subset of rows on either strand (with N, noise, several records), forward, reverse and twice; non-trivial = distinct case lines where weeding removed or kept at least one k-mer",
         "trusted_base": COMMON_TRUST, "assumptions": [EXTERNAL],
     },
